@@ -297,3 +297,57 @@ Proof.
   pose proof (on_binary ex_dead a Hsat t2 ((1, mkWorker 1 [(0, 2)]), (0, mkStrat 1 4 [(0, 1)])) H (or_introl eq_refl)) as O.
   unfold on, pv in O. cbn in O. destruct (a (VPlaced 2 1 0)) as [|y|y]; lia.
 Qed.
+
+(* ------------------------------------------------------------------ F11-iv: completed parents are counted as unplaced *)
+(* `len(parent_tasks)` counts every parent in the graph, the placement sum only those that have variables: a task
+   with a co-decided parent and a parent that is not decided (e.g. COMPLETED) can never be placed *)
+Theorem undecided_parent_blocks : forall I a, sat (gen_ilp I) a ->
+  forall c, In c (nonrunning I) -> decided_parents I c <> [] ->
+  Z.of_nat (length (decided_parents I c)) < nparents I c -> decision I a c = None.
+Proof.
+  intros I a Hsat c Hc Hne Hlt.
+  assert (Hd : has_dep I c = true) by (unfold has_dep; destruct (decided_parents I c); [congruence|reflexivity]).
+  destruct (app_rows I a Hsat c Hc Hd) as (Hb & H1 & H0).
+  assert (Hsum : eval_lin a (parent_sum I c) <= Z.of_nat (length (decided_parents I c))).
+  { unfold parent_sum. rewrite eval_lin_sum.
+    assert (G : forall l', (forall q', In q' l' -> In q' (i_tasks I)) ->
+                sum_list (fun x => eval_lin a (placed_lin I x one_coef)) l' <= Z.of_nat (length l')).
+    { induction l' as [|q' l' IH']; intros Hin; [rewrite sum_list_nil; cbn; lia|]. rewrite sum_list_cons. cbn [length].
+      assert (eval_lin a (placed_lin I q' one_coef) <= 1).
+      { rewrite eval_placed_lin. rewrite (sum_list_ext _ _ (fun sl => eval_pterm a (pv q' sl))) by (intros; unfold one_coef; lia).
+        apply (placed_le1 I a Hsat q'). apply Hin. left; reflexivity. }
+      specialize (IH' (fun x Hx => Hin x (or_intror Hx))). lia. }
+    apply G. intros q' Hq'. unfold decided_parents in Hq'. apply filter_In in Hq'. tauto. }
+  assert (Happ : a (VApp (t_id c)) = 0).
+  { destruct (Z.eq_dec (a (VApp (t_id c))) 1) as [E|E]; [specialize (H1 E); lia|lia]. }
+  specialize (H0 Happ).
+  destruct (decision I a c) as [[[s w] k]|] eqn:D; [|reflexivity]. exfalso.
+  assert (Hin : In c (i_tasks I)) by (apply in_nonrunning in Hc; tauto).
+  pose proof (decision_placed_sum I a c s w k Hsat Hin D). lia.
+Qed.
+
+(* witness: diamond A -> C <- B, A completed (not decided), B released, C offered with the graph; now = 10 *)
+Definition ex_cp : instance :=
+  mkInst 10 [mkWorker 1 [(0, 2)]]
+    [mkTask 2 0 TReleased 0 60 [mkStrat 1 4 [(0, 1)]] None 4;
+     mkTask 3 0 TVirtual (-1) 60 [mkStrat 1 4 [(0, 1)]] None 4] 2%nat
+    [mkGraph 0 [1; 2; 3] [(1, 3); (2, 3)]] true false true Goodput [].
+Definition ex_cp_plan : plan := [(2, Some (11, 1, 0)); (3, Some (16, 1, 0))].
+Theorem completeness_refuted_completed_parent :
+  feasible_clb ex_cp ex_cp_plan = true /\ goodput ex_cp ex_cp_plan = 1 /\
+  forall a, sat (gen_ilp ex_cp) a -> objective (gen_ilp ex_cp) a <= 0.
+Proof.
+  split; [vm_compute; reflexivity|]. split; [vm_compute; reflexivity|].
+  intros a Hsat. rewrite (objective_is_goodput ex_cp a Hsat eq_refl).
+  set (tc := mkTask 3 0 TVirtual (-1) 60 [mkStrat 1 4 [(0, 1)]] None 4).
+  assert (Nc : In tc (nonrunning ex_cp)) by (apply in_nonrunning; split; [right; left; reflexivity|reflexivity]).
+  pose proof (undecided_parent_blocks ex_cp a Hsat tc Nc ltac:(vm_compute; discriminate) ltac:(vm_compute; reflexivity)) as D.
+  unfold goodput_a. change (graphs_in_order ex_cp) with [0]. rewrite sum_list_cons, sum_list_nil.
+  change (reward_tasks ex_cp 0) with [tc]. cbn [forallb]. rewrite andb_true_r.
+  destruct (placedb_a ex_cp a tc) eqn:P; [|lia]. exfalso.
+  apply (placedb_single ex_cp a tc 1 (mkWorker 1 [(0, 2)]) (mkStrat 1 4 [(0, 1)]) eq_refl eq_refl eq_refl) in P. cbn [t_id tc] in P.
+  unfold decision in D. destruct (chosen ex_cp a tc) as [[w k]|] eqn:C; [discriminate|].
+  apply (chosen_complete ex_cp a tc); [|exact C].
+  exists ((1, mkWorker 1 [(0, 2)]), (0, mkStrat 1 4 [(0, 1)])). split; [left; reflexivity|].
+  unfold slot_hit, pv. cbn. rewrite P. reflexivity.
+Qed.
